@@ -6,6 +6,12 @@ import (
 )
 
 func TestMain(m *testing.M) {
+	if os.Getenv("VERIF_CHILD") == "killrun" {
+		os.Exit(killRunChild())
+	}
+	if os.Getenv("VERIF_CHILD") == "killrecover" {
+		os.Exit(killRecoverChild())
+	}
 	if os.Getenv("VERIF_CHILD") == "c08fault" {
 		os.Exit(c08FaultChild())
 	}
